@@ -246,6 +246,10 @@ func TestVerifC37(t *testing.T) {
 				if !changed && (!fresh || !cl.cidErr) && cl.forceID == nil && (uploaded || len(cl.uploads) != up0) {
 					rep.Fail("unchanged-but-uploaded", fmt.Sprintf("index %d equals remote label, lastIndex %d: round result %q", dbStart, lastBefore, res), replay)
 				}
+				if !changed && fresh && cl.cidErr && cl.forceID == nil && uploaded {
+					rep.Fail("unchanged-but-uploaded:new-uploader-with-unreadable-remote-id",
+						fmt.Sprintf("index %d equals the remote label, but a new Uploader value whose CurrentID call failed uploaded again: %q", dbStart, res), replay)
+				}
 				if !uploaded {
 					if cl.remoteID != remoteIDBefore || cl.remoteContent != remoteContentBefore {
 						rep.Fail("failed-or-skipped-round-changed-remote", res, replay)
